@@ -654,48 +654,52 @@ def ex_e2(p, seed):
 
 # ================================================================== E2b: shared argument buffers, data / model switches
 
-AL_OPS = ["v0", "v1", "g0", "g1", "nd", "sw"]
+AL_OPS = ["v0", "v1", "g0", "g1", "nd", "sw", "sf"]
 AL_LEN = {"quick": 3, "thorough": 4}
 
 
 def ex_alias(p, seed):
-    """every sequence over {value / gradient at two points THROUGH ONE CALLER-OWNED ARRAY that is overwritten in place,
-    new data set (set_prob_dists_q), switch to another tomography of the same shape (full configuration)} on one loss
-    object; after every step the result is compared with the same call on a freshly built and freshly configured object
-    given a fresh array (that route is judged against the defining formulas by the other families)."""
+    """every sequence over {value / gradient at two points THROUGH ONE CALLER-OWNED ARRAY (per variable count) that is overwritten
+    in place, new data set (set_prob_dists_q), switch to another tomography of the same shape (sw), switch to the tomography with
+    the other parametrisation flag, i.e. another NUMBER OF VARIABLES (sf)} on one loss object; after every step the result is
+    compared with the same call on a freshly built and freshly configured object given a fresh array (that route is judged
+    against the defining formulas by the other families)."""
     out = Out()
     cls, mode = p["cls"], p["mode"]
-    sus = [X.setup(p["typ"], p["flag"], p["mm"], p["mp"], seed, "Q1"), X.setup(p["typ"], p["flag"], p["mm"], p["mp"], seed + 1, "Q1")]
-    n = sus[0].n
-    if sus[1].n != n or sus[1].S != sus[0].S or sus[1].m != sus[0].m:
-        raise HarnessError("alias: the two set-ups differ in shape")
-    if np.abs(sus[0].A - sus[1].A).max() < 1e-3:
-        raise HarnessError("alias: the two set-ups have the same forward model")
-    F = sus[0].F
-    base = [F.var_from_stacked(b[1], p["flag"]) for b in sus[0].base]
-    P = [0.8 * base[0] + 0.2 * base[1], 0.3 * base[0] + 0.7 * base[-1]]
-    datas = {(k, j): X.dataset(sus[k], did) for k in (0, 1) for j, did in enumerate(("counts:100", "tab:2:1"))}
-    tail = "%s:mode=%s:%s:%s" % (cls, modeclass(mode), mclass(sus[0].m), p["typ"])
+    sus = {(a, b): X.setup(p["typ"], p["flag"] if b == 0 else not p["flag"], p["mm"], p["mp"], seed + a, "Q1") for a in (0, 1) for b in (0, 1)}
+    for b in (0, 1):
+        if sus[(1, b)].n != sus[(0, b)].n or sus[(1, b)].S != sus[(0, b)].S or sus[(1, b)].m != sus[(0, b)].m:
+            raise HarnessError("alias: the two set-ups differ in shape")
+        if np.abs(sus[(0, b)].A - sus[(1, b)].A).max() < 1e-3:
+            raise HarnessError("alias: the two set-ups have the same forward model")
+    if sus[(0, 0)].n == sus[(0, 1)].n:
+        raise HarnessError("alias: the two parametrisations have the same number of variables")
+    P = {}
+    for key, su in sus.items():
+        base = [su.F.var_from_stacked(bb[1], su.flag) for bb in su.base]
+        P[key] = [0.8 * base[0] + 0.2 * base[1], 0.3 * base[0] + 0.7 * base[-1]]
+    datas = {(key, j): X.dataset(sus[key], did) for key in sus for j, did in enumerate(("counts:100", "tab:2:1"))}
+    tail = "%s:mode=%s:%s:%s" % (cls, modeclass(mode), mclass(sus[(0, 0)].m), p["typ"])
 
-    def new_loss(k, j):
+    def new_loss(key, j):
         L = lib()[cls][0]()
-        ok, opt, w = make_option(cls, mode, sus[0])       # the same option (and custom weights) for both tomographies
+        ok, opt, w = make_option(cls, mode, sus[(0, 0)])       # the same option (and custom weights) for all tomographies
         if not ok:
             return None, None
-        ok2, e = configure(L, cls, sus[k], opt, datas[(k, j)])
+        ok2, e = configure(L, cls, sus[key], opt, datas[(key, j)])
         return (L, opt) if ok2 else (None, None)
 
     REF = {}
 
-    def ref(k, j, op):
-        key = (k, j, op)
-        if key not in REF:
-            L, _ = new_loss(k, j)
+    def ref(key, j, op):
+        k3 = (key, j, op)
+        if k3 not in REF:
+            L, _ = new_loss(key, j)
             f = L.value if op[0] == "v" else L.gradient
-            REF[key] = np.array(f(P[int(op[1])].copy()), dtype=float)
-        return REF[key]
+            REF[k3] = np.array(f(P[key][int(op[1])].copy()), dtype=float)
+        return REF[k3]
 
-    if new_loss(0, 0)[0] is None:
+    if new_loss((0, 0), 0)[0] is None:
         out.count("alias_configuration_rejected")
         out.outcome = "alias:skipped"
         return out
@@ -703,9 +707,9 @@ def ex_alias(p, seed):
     depth = AL_LEN[p.get("tier", "quick")]
     reported = set()
     for seq in itertools.product(range(len(AL_OPS)), repeat=depth):
-        L, opt = new_loss(0, 0)
-        k, j = 0, 0
-        buf = np.zeros(n)
+        L, opt = new_loss((0, 0), 0)
+        key, j = (0, 0), 0
+        bufs = {sus[(0, 0)].n: np.zeros(sus[(0, 0)].n), sus[(0, 1)].n: np.zeros(sus[(0, 1)].n)}
         nseq += 1
         hist = []
         for oi in seq:
@@ -714,40 +718,44 @@ def ex_alias(p, seed):
             out.transitions += 1
             if op == "nd":
                 j = 1 - j
-                ok, e = A.call(L.set_prob_dists_q, [np.array(q, dtype=np.float64) for _, q in datas[(k, j)]])
+                ok, e = A.call(L.set_prob_dists_q, [np.array(q, dtype=np.float64) for _, q in datas[(key, j)]])
                 if not ok:
                     out.fail("alias:set_prob_dists_q-raises:" + tail, "history %s: %s" % (hist, A.fmt_exc(e)))
                     break
-                if mode.startswith("inverse"):
-                    break       # the weights of these modes belong to the data set that configured them
                 continue
-            if op == "sw":
-                k = 1 - k
-                ok, e = configure(L, cls, sus[k], opt, datas[(k, j)])
+            if op in ("sw", "sf"):
+                key = (1 - key[0], key[1]) if op == "sw" else (key[0], 1 - key[1])
+                ok, e = configure(L, cls, sus[key], opt, datas[(key, j)])
                 if not ok:
-                    out.fail("alias:reconfigure-raises:" + tail, "history %s: %s" % (hist, A.fmt_exc(e)))
+                    out.fail("alias:reconfigure-raises:%s:%s" % ("same-shape" if op == "sw" else "other-number-of-variables", tail),
+                             "history %s: %s" % (hist, A.fmt_exc(e)))
                     break
                 continue
-            buf[:] = P[int(op[1])]
+            buf = bufs[sus[key].n]
+            buf[:] = P[key][int(op[1])]
             ok, r = A.call(L.value if op[0] == "v" else L.gradient, buf)
             out.ops += 1
+            prev = hist[:-1]
+            cause = ("after-switch-of-variable-count" if "sf" in prev else "after-model-switch" if "sw" in prev else "after-new-data" if "nd" in prev else
+                     "argument-array-overwritten-in-place" if any(h[0] in "vg" for h in prev) else "first-call")
+            what = "value" if op[0] == "v" else "gradient"
             if not ok:
-                out.fail("alias:%s-raises:%s" % ("value" if op[0] == "v" else "gradient", tail), "history %s: %s" % (hist, A.fmt_exc(r)))
+                sig = "alias:%s-raises:%s:%s" % (what, cause, tail)
+                if sig not in reported:
+                    reported.add(sig)
+                    out.fail(sig, "history %s: %s" % (hist, A.fmt_exc(r)))
                 break
             r = np.array(r, dtype=float)
-            want = ref(k, j, op)
+            want = ref(key, j, op)
             out.traces += 1
             if r.shape != want.shape or np.abs(r - want).max() > TOL * (1.0 + np.abs(want).max()):
-                prev = [h for h in hist[:-1]]
-                cause = ("after-model-switch" if "sw" in prev else "after-new-data" if "nd" in prev else
-                         "argument-array-overwritten-in-place" if any(h[0] in "vg" for h in prev) else "first-call")
-                sig = "alias:%s-differs-from-fresh-object:%s:%s" % ("value" if op[0] == "v" else "gradient", cause, tail)
+                sig = "alias:%s-differs-from-fresh-object:%s:%s" % (what, cause, tail)
                 if sig not in reported:
                     reported.add(sig)
                     out.fail(sig, "history %s on one loss object with one argument array: %r, a fresh object given a fresh array returns %r" % (
                         hist, r.tolist(), want.tolist()))
                 break
-            if not np.array_equal(buf, P[int(op[1])]):
+            if not np.array_equal(buf, P[key][int(op[1])]):
                 out.fail("alias:argument-modified:" + tail, "history %s: the argument array was changed by the call" % hist)
                 break
     out.states = nseq
